@@ -125,7 +125,7 @@ func c04ErrKind(err error) []string {
 	}
 	msg := err.Error()
 	kinds := []struct{ sub, kind string }{
-		{"empty name", "emptyName"}, {"id required", "noIDs"}, {"uid required", "noUID"},
+		{"empty name", "emptyName"}, {"uid required", "noUID"}, {"id required", "noIDs"},
 		{"invalid tag", "invalidConf"}, {"invalid upstream", "invalidConf"},
 		{"uses the same uid", "uidClash"}, {"uses the same name", "nameClash"},
 		{"uses the same ClientID", "cidClash"}, {"uses the same IP", "ipClash"},
@@ -294,7 +294,7 @@ func c04Run(f []string) []string {
 
 // ---------------------------------------------------------------- generator
 
-var c04Names = []string{"alice", "bob", "carol", "Alice", "dave"}
+var c04Names = []string{"alice", "bob", "carol", "Alice", "dave", "erin", "frank"}
 
 var c04CIDs = []string{"cli", "phone", "tv", "a-b", "x9"}
 
